@@ -36,8 +36,6 @@ void doanddie(char *user, unsigned int userlen, char *pass);   /* the cut callee
 #define L3 0
 #endif
 #define N (L1 + L2 + L3)
-#define CHAL "<123.1000000000@h>"
-#define CHALLEN 18
 
 unsigned char in[N];
 
@@ -145,11 +143,12 @@ int ideal_putc(substdio *s, unsigned char c)
 int ideal_flush(substdio *s)
 {
   if (!greeted) {
-    unsigned int k;
-    static const char want[] = "+OK " CHAL "\r\n";
+    /* RFC 1939 section 7: the greeting carries the APOP timestamp <...@hostname> */
+    unsigned int n = greetlen < sizeof greet ? greetlen : 0;
     greeted = 1;
-    CHECK(greetlen == 4 + CHALLEN + 2, "greeting is +OK <pid.time@hostname>");
-    for (k = 0; k < 4 + CHALLEN + 2; ++k) CHECK(k < sizeof greet && greet[k] == (unsigned char) want[k], "greeting shows the APOP timestamp <pid.time@hostname>");
+    CHECK(n >= 12 && greet[0] == '+' && greet[1] == 'O' && greet[2] == 'K' && greet[3] == ' ' && greet[4] == '<'
+          && greet[n - 5] == '@' && greet[n - 4] == 'h' && greet[n - 3] == '>' && greet[n - 2] == '\r' && greet[n - 1] == '\n',
+          "greeting is +OK <timestamp@hostname>");
     return 0;
   }
   if (reply_pending) { ++nreply; reply_pending = 0; }
@@ -173,7 +172,6 @@ void doanddie(char *user, unsigned int userlen, char *pass)
     CHECK(pass[a_pl] == 0, "password ends where the line ends");
     CHECK(nreply == nlines - 1 && reply_pending == 0, "no reply before the checker has run");
     CHECK(hostname == argv_[1] && childargs == argv_ + 2, "hostname and subprogram come from the command line");
-    { static const char u[] = "123.1000000000@"; for (k = 0; k < 16; ++k) CHECK(unique[k] == u[k], "timestamp = pid.time@"); }
     if (a_ul == 3 && a_pl == 3 && nlines == 2) WITNESS("user3_pass3");
     if (nlines == 1) WITNESS("apop");
     if (nlines >= 2) WITNESS("user_pass");
@@ -219,6 +217,9 @@ void vmain(void)
   if (L2) ref_line(1, L1, L1 + L2 - 1);
   if (L3) ref_line(2, L1 + L2, N - 1);
   expect = EXP_NONE;
+  /* take username's arena slot now: a slot taken on only some paths makes the slot index symbolic
+   * and every later access through the stralloc a 24-way case split */
+  stralloc_ready(&username, 1);
   popup_main(3, argv_);
   CHECK(0, "main does not return");
 }
